@@ -32,6 +32,9 @@ def run(ctx):
     L.lockstep(ctx, [L.mon_c09], ['c09'], with_raw=True)
     L.instr_sweep(ctx, L.C09_KINDS)
     L.allsigs_probe(ctx, ('lost',))
+    # the asynchronous interface: Pending is only ever answered with a wake-up armed (else the next delivery's byte wakes nobody)
+    if ctx.harness(['p_nested_close']):
+        L.close_sweep(ctx, L.C09_POLL_KINDS, configs=L.STALE_CONFIGS, key='instruction_poll_sweep')
     ctx.coverage['rule_instruction_sweep'] = ('one more delivery (real handler, sigqueue) at every instruction boundary of pending() / wait() / forever().next(), '
                                               'SignalOnly and WithRawSiginfo, 23 configurations of earlier deliveries incl. bursts longer than the buffer; fork per boundary')
     ctx.coverage['rule'] = ('scenarios {wait | Forever::next | poll_signal | pending + several live batches} x {1-2 deliveries of 1-2 signals, add_signal from another thread, close}: every split point of each activity '
@@ -43,6 +46,8 @@ def run(ctx):
 def replay(ctx, path):
     case = json.load(open(path))
     sc = case.get('case', {}).get('scenario')
+    if case.get('case', {}).get('close_sweep'):
+        return L.close_replay(ctx, case['case'], L.C09_POLL_KINDS)
     if case.get('case', {}).get('instr_sweep'):
         return L.instr_replay(ctx, case['case'], L.C09_KINDS)
     if not sc:
